@@ -143,3 +143,23 @@ def run(cx):
         cx.check('C15.S2', not bare, nt.path, 'ret', 'soa-minimum-never-returned-uncapped', '; '.join(r_.term[:80] for g, r_ in bare))
         src = cx.returns(nt, r'.')
         cx.check('C15.S2', any('arg1.authorities' in r_.term for r_ in src), nt.path, 'ret', 'soa-taken-from-the-authority-section', '; '.join(r_.term[:100] for r_ in src))
+
+    # ---------------------------------------------------------------- S3 the alias TTL reaches the cache entry (CNAME chains)
+    # handle_noerror rebuilds the answer section of a response that carried a whole CNAME chain; with preserve_intermediates=false
+    # the CNAMEs themselves are dropped, so the smallest CNAME TTL of the chain reaches ResponseCache::insert only through the
+    # TTL written onto every record the rebuild keeps.  Every Some(record) the filter yields must have passed that write.
+    hn = prog.find(r'^hickory_resolver::caching_client::CachingClient::handle_noerror::\{closure@filter_map#\d+\}$')
+    nkeep = 0
+    for g in hn:
+        keeps = cx.returns(g, r'^Option::Some\(')
+        stores = [(w[1], w[2]) for w in writers(prog, r'^hickory_proto::rr::record::Record$', r'^ttl$') if w[0] is g and w[4] == 'store' and w[2] is not None]
+        good = set()
+        for bi, si in stores:
+            st = g.blocks[bi]['s'][si]
+            v = shorten(g.term_operand(st[2][1])) if st[2][0] == 'use' else ''
+            if re.search(r'^Ord::min\(', v) and re.search(r'\^', v) and re.search(r'\.ttl\b', v):
+                good.add(bi)
+        nkeep += len(keeps)
+        if keeps:
+            cx.must_pass('C15.S3', g, keeps, via_blocks=good, what='kept-record-ttl=min(chain-ttl,record-ttl)')
+    cx.floor('C15.S3', nkeep, 3, 'records kept by the answer-section rebuild of handle_noerror')
